@@ -128,7 +128,7 @@ func init() {
 			return nil
 		},
 		pk + "verifYield": func(r *Run, fr *frame, a []Value) Value {
-			r.visible("harness-yield", nil)
+			r.visibleOn("harness-yield", "yield", nil)
 			return nil
 		},
 		pk + "verifGoroutines": func(r *Run, fr *frame, a []Value) Value {
@@ -164,7 +164,7 @@ func init() {
 		pk + "verifFireTimer": func(r *Run, fr *frame, a []Value) Value {
 			t := r.timerOf(a[0])
 			fired := false
-			r.visible("fire timer", func() {
+			r.visibleOn("fire timer", t, func() {
 				if t.armed {
 					t.armed = false
 					t.fired++
@@ -659,7 +659,7 @@ func inNewTimer(r *Run, fr *frame, a []Value) Value {
 func inTimerStop(r *Run, fr *frame, a []Value) Value {
 	t := r.timerOf(a[0])
 	was := false
-	r.visible("Timer.Stop", func() {
+	r.visibleOn("Timer.Stop", t, func() {
 		was = t.armed
 		t.armed = false
 	})
@@ -669,7 +669,7 @@ func inTimerStop(r *Run, fr *frame, a []Value) Value {
 func inTimerReset(r *Run, fr *frame, a []Value) Value {
 	t := r.timerOf(a[0])
 	was := false
-	r.visible("Timer.Reset", func() {
+	r.visibleOn("Timer.Reset", t, func() {
 		was = t.armed
 		t.armed = true
 		t.dur = a[1].(*Term)
@@ -740,7 +740,7 @@ func inOnceDo(r *Run, fr *frame, a []Value) Value {
 	key := locKey(p)
 	g := r.sched.cur
 	run := false
-	r.blockUntil("Once.Do", func() bool { return r.sched.onceRun[key] == 0 }, func() {
+	r.blockUntilOn("Once.Do", "once:"+key, func() bool { return r.sched.onceRun[key] == 0 }, func() {
 		d := r.walk(p.slot.v, donePath).(*Term)
 		if d.IsConst() && d.c == 0 {
 			run = true
@@ -751,7 +751,7 @@ func inOnceDo(r *Run, fr *frame, a []Value) Value {
 	})
 	if run {
 		r.call(fr, fr.curPos, a[1], nil)
-		r.visible("Once.Do done", func() {
+		r.visibleOn("Once.Do done", "once:"+key, func() {
 			p.slot.v = r.update(p.slot.v, dp.path, r.ctx.Const(32, 1))
 			r.sched.onceRun[key] = 0
 			r.sched.mutexVC["once:"+key] = copyVC(g.vc)
@@ -770,7 +770,7 @@ func inMutexLock(r *Run, fr *frame, a []Value) Value {
 	sp := append(append([]pathElem(nil), p.path...), r.fieldPath(mt, "state")...)
 	key := locKey(p)
 	g := r.sched.cur
-	r.blockUntil("Mutex.Lock", func() bool {
+	r.blockUntilOn("Mutex.Lock", "mu:"+key, func() bool {
 		s := r.walk(p.slot.v, sp).(*Term)
 		return s.IsConst() && s.c == 0
 	}, func() {
@@ -789,7 +789,7 @@ func inMutexUnlock(r *Run, fr *frame, a []Value) Value {
 	key := locKey(p)
 	g := r.sched.cur
 	bad := false
-	r.visible("Mutex.Unlock", func() {
+	r.visibleOn("Mutex.Unlock", "mu:"+key, func() {
 		s := r.walk(p.slot.v, sp).(*Term)
 		if s.IsConst() && s.c == 0 {
 			bad = true
@@ -810,7 +810,7 @@ func inWGAdd(r *Run, fr *frame, a []Value) Value {
 	d := int(sext64(a[1].(*Term).c, 64))
 	g := r.sched.cur
 	neg := false
-	r.visible("WaitGroup.Add", func() {
+	r.visibleOn("WaitGroup.Add", "wg:"+key, func() {
 		r.sched.wgCount[key] += d
 		if r.sched.wgCount[key] < 0 {
 			neg = true
@@ -834,7 +834,7 @@ func inWGAdd(r *Run, fr *frame, a []Value) Value {
 func inWGWait(r *Run, fr *frame, a []Value) Value {
 	key := locKey(a[0])
 	g := r.sched.cur
-	r.blockUntil("WaitGroup.Wait", func() bool { return r.sched.wgCount[key] == 0 }, func() {
+	r.blockUntilOn("WaitGroup.Wait", "wg:"+key, func() bool { return r.sched.wgCount[key] == 0 }, func() {
 		if vc := r.sched.wgVC[key]; vc != nil {
 			joinVC(g.vc, vc)
 		}
@@ -871,7 +871,7 @@ func (r *Run) callBoundIntrinsic(fr *frame, b *BoundIntrinsic, args []Value) Val
 	case "ctx.cancel":
 		cm := b.recv.(*CtxModel)
 		g := r.sched.cur
-		r.visible("context cancel", func() {
+		r.visibleOn("context cancel", cm.done, func() {
 			if !cm.cancelled {
 				cm.cancelled = true
 				cm.done.closed = true
